@@ -331,6 +331,18 @@ func RunScenario(t *testing.T, rec *Recorder, sc *Scenario) {
 			_ = os.WriteFile(p, []byte(strings.Join(lines, "\n")), 0o664)
 			extra["rapid.failfile"] = p
 		}
+		// "makecheck_early": the test function is made by MakeCheck before the flags have their values (a package-level table of
+		// sub-tests, an init function) and run afterwards: the flags in force when it RUNS count
+		var early func(*testing.T)
+		earlyEntry := run.Entry == "makecheck_early" || (run.Entry == "" && entry == "makecheck_early")
+		if earlyEntry {
+			setFlags()
+			ep := &sc.Prop
+			if run.Prop != nil {
+				ep = run.Prop
+			}
+			early = rapid.MakeCheck(r.Prop(ep))
+		}
 		eff := setFlags(sc.Flags, run.Flags, extra)
 		for _, w := range run.Warm {
 			rec.Pause()
@@ -372,6 +384,9 @@ func RunScenario(t *testing.T, rec *Recorder, sc *Scenario) {
 		if run.Entry != "" {
 			ren = run.Entry
 		}
+		if earlyEntry {
+			ren = "makecheck"
+		}
 		pre := snapshotFS(name)
 		rec.Emit("run.begin", F{"run": i + 1, "entry": ren, "checks": checks, "seed": W(seed), "fixedseed": seed != 0,
 			"nofailfile": eff["rapid.nofailfile"] == "true", "failfile": eff["rapid.failfile"], "shrinktime": eff["rapid.shrinktime"],
@@ -398,7 +413,11 @@ func RunScenario(t *testing.T, rec *Recorder, sc *Scenario) {
 					r.mu.Unlock()
 					rec.Emit("timing", F{"run": i + 1, "hasdeadline": has, "remain_ms": int(time.Until(d) / time.Millisecond), "invs": n, "total_ms": int(ns / int64(time.Millisecond))})
 				}()
-				rapid.MakeCheck(prop)(st)
+				if early != nil {
+					early(st)
+				} else {
+					rapid.MakeCheck(prop)(st)
+				}
 			})
 			rec.Emit("run.end", F{"run": i + 1, "how": "subtest", "panic": "", "failed": failed, "failnow": failed, "skipped": skipped})
 		case "example":
